@@ -166,6 +166,48 @@ def serve (P : Params) (username password : Option Bytes) (hits : String → Boo
       | .raised => ⟨some code_exception, false, none⟩
     else ⟨none, false, some (name, none)⟩
 
+/-! ### several server sections: which dictionary each server's wrappers consult -/
+
+/-- one `[inet_http_server]` / `[unix_http_server]` section as it reaches `make_http_servers` -/
+structure Section where
+  username : Option Bytes
+  password : Option Bytes
+deriving DecidableEq, Repr
+
+def entryOf (s : Section) : Bytes × Bytes := (s.username.getD [], s.password.getD [])
+
+/-- the dictionary handed to the wrappers of the `i`-th server.  `users_per_server` is regenerated
+    from the source: `users = {username: password}` is executed inside the loop over the server
+    configurations, under `if username:`, from that configuration's own values.  Were the dictionary
+    created once and filled in the loop, every server would consult the entries of all of them
+    (later entries replacing earlier ones with the same key) — the `else` branch. -/
+def usersFor (secs : List Section) (i : Nat) : List (Bytes × Bytes) :=
+  if users_per_server then
+    match secs[i]? with
+    | some s => [entryOf s]
+    | none => []
+  else ((secs.filter fun s => authEnabled s.username).reverse.map entryOf)
+
+/-- `serve` with the wrappers' dictionary as a parameter -/
+def serveWith (P : Params) (username : Option Bytes) (users : List (Bytes × Bytes)) (hits : String → Bool)
+    (header : List Bytes) : Answer :=
+  match dispatch_order.find? hits with
+  | none => ⟨some code_no_handler, false, none⟩
+  | some name =>
+    if isWrapped username name then
+      match handleRequest P users header with
+      | .inner u p => ⟨none, false, some (name, some (u, p))⟩
+      | .malformed => ⟨some code_malformed, false, none⟩
+      | .unauthorized => ⟨some code_unauthorized, true, none⟩
+      | .raised => ⟨some code_exception, false, none⟩
+    else ⟨none, false, some (name, none)⟩
+
+/-- one request to the `i`-th of the configured servers (`none`: there is no such server) -/
+def serveAt (P : Params) (secs : List Section) (i : Nat) (hits : String → Bool) (header : List Bytes) : Option Answer :=
+  match secs[i]? with
+  | none => none
+  | some s => some (serveWith P s.username (usersFor secs i) hits header)
+
 /-! ### line protocol -/
 
 def optBytes (s : String) : Option (Option Bytes) :=
@@ -279,6 +321,30 @@ def runCase (cfg : List String) (ops : List String) : List String :=
         let hit := match dispatch_order.find? hits with | some n => isWrapped user n | none => false
         if tablesCover t hdr hit (pass.getD []) then showAnswer (serve (paramsOf t) user pass hits hdr)
         else "bad-op"
+    | some "serveat", some hdr, some t =>
+      -- `serveat i=<index> secs=<user/pass;user/pass;…> m=… h=… t=…`
+      let secs : Option (List Section) := (kvGet ws "secs").bind fun v =>
+        allSome ((splitNE v ";").map fun it =>
+          match it.splitOn "/" with
+          | [u, p] => match optBytes u, optBytes p with
+            | some u, some p => some (⟨u, p⟩ : Section)
+            | _, _ => none
+          | _ => none)
+      match kvGet ws "m", kvNat ws "i", secs with
+      | some m, some i, some secs =>
+        let ms := if m = "-" then [] else splitNE m ","
+        let hits := fun n => ms.contains n
+        match secs[i]? with
+        | none => "bad-op"
+        | some sec =>
+          let hit := match dispatch_order.find? hits with | some n => isWrapped sec.username n | none => false
+          let stored := (((usersFor secs i).map (·.2)).find? (fun st => sha_prefix.isPrefixOf st)).getD []
+          if tablesCover t hdr hit stored then
+            match serveAt (paramsOf t) secs i hits hdr with
+            | some a => showAnswer a
+            | none => "bad-op"
+          else "bad-op"
+      | _, _, _ => "bad-op"
     | _, _, _ => "bad-op"
   | _, _ => ops.map fun _ => "bad-config"
 
